@@ -16,7 +16,12 @@ RULE = (
 )
 
 # fixtures that hold only plain cells the grid model can carry (checked by the profile at load time too)
-FIXTURES = ["test-1.numbers", "test-save-1.numbers", "issue-44.numbers", "test-empty-rows.numbers", "issue-51.numbers", "test-titles.numbers"]
+FIXTURES = [
+    "test-1.numbers", "test-save-1.numbers", "issue-44.numbers", "test-empty-rows.numbers", "issue-51.numbers", "issue-10.numbers",
+    "issue-3.numbers", "issue-4.numbers", "issue-56.numbers", "issue-60.numbers", "issue-80.numbers", "mapping.numbers", "matches.numbers",
+    "test-5.numbers", "test-issue-75.numbers", "test-issue-76.numbers", "test-2.numbers", "test-package.numbers", "issue-9.numbers", "test-7.numbers",
+    "issue-73.numbers", "test-format-save.numbers", "test-actions.numbers",
+]
 
 GEN_CELL_CAP = 3500
 
